@@ -3,6 +3,9 @@
 PROPERTIES = {
     "C03": dict(
         modules=["samplers"],
+        # points drawn in a mesh composed with a polygonal footprint are only in the composed set if the bounded
+        # footprint covers the mesh's vertical extent (cache-soundness contract written for C16)
+        borrow=dict(modules=["regions"], match=["approxBoundFootprint"]),
         level="proof",
         claim=(
             "membership and RNG-trace laws of the samplers: Rectangular/Circular/SectorRegion.uniformPointInner (draws, their arguments, point as "
